@@ -132,8 +132,9 @@ func checkC14(c *Ctx) {
 			}
 			b, isB := ss.Val.ConstBool()
 			if !isB {
-				c.Bad("R1", "did-store:"+FuncName(ss.Fn)+":"+did+":non-constant", p.InstrPos(ss.Instr), did+" is set from a computed value "+ss.Val.String())
-				continue
+				// a computed value (flag = i == idx) may be true: the store is held to what a store of true is
+				// held to — the conditions it sits under must already imply the chance flag
+				b = true
 			}
 			if !b {
 				continue
@@ -299,8 +300,8 @@ func checkC14(c *Ctx) {
 		if storeIsLocal(ss.Instr) {
 			continue
 		}
-		if b, _ := ss.Val.ConstBool(); !b {
-			continue
+		if b, isB := ss.Val.ConstBool(); isB && !b {
+			continue // a computed value may be true: held to the rule like a store of true
 		}
 		nF++
 		ok := ss.Fn == byAction["Fold"]
@@ -334,6 +335,21 @@ func checkC14(c *Ctx) {
 		pl := statsObj(ss.Addr).Args[0].Strip() // PlayerStates[i]
 		ok := pl.Kind == "index" && pl.Args[0].Strip().IsField("TableState", "PlayerStates") && fullRange(pl.Args[1], func(x *Sym) bool { return x.IsField("TableState", "PlayerStates") })
 		c.Check(ok, "R4", "3bet-store@"+branchOf(p, ss), p.InstrPos(ss.Instr), "inside a loop over all players", "the 3-bet flag is written outside a loop over the whole player list: two players can hold it")
+		if _, isConst := ss.Val.ConstBool(); !isConst && ok {
+			// a computed flag (Is3B = i == actingIdx) sets and clears in one store: the value must be the
+			// comparison of the loop position with the acting player
+			iv := pl.Args[1].Strip()
+			v := ss.Val.Strip()
+			eq := false
+			if v.Kind == "binop" && v.Name == "==" && len(v.Args) == 2 {
+				l, r := v.Args[0].Strip(), v.Args[1].Strip()
+				isPos := func(x *Sym) bool { return x.String() == iv.String() || x.String() == pl.String() }
+				if (isPos(l) && r.Kind == "param") || (isPos(r) && l.Kind == "param") {
+					eq = true
+				}
+			}
+			c.Check(eq, "R4", "3bet-true-at-one-index", p.InstrPos(ss.Instr), "computed flag = (loop position == acting player)", "the 3-bet flag is computed as "+v.String()+": not 'this loop position is the acting player', so it can be true for several players or for the wrong one")
+		}
 		if b, _ := ss.Val.ConstBool(); b && ok {
 			// true only at index == acting index, with a false store on the other edge
 			iv := pl.Args[1].Strip()
